@@ -8,6 +8,10 @@ R10.4 setExtrapolate's coefficients make p, dp, ddp continuous at the range ends
 R10.5 table branch is -freeEnergyX(T).veffValue / its spline derivative of order 1, 2
 R10.6 setExtrapolate is called after phase tracing, before Hydrodynamics is built; it refreshes the bounds first
 R10.7 HighT and LowT method families are mirror images at term level
+
+Conditional expressions in the thermodynamic functions are lowered to if / else statements before the paths are extracted
+(`_LowerConditionals`); the manager functions are analysed with loops over literal cases written out and procedures around the
+anchored calls looked into (`c01.normalised`).
 """
 from __future__ import annotations
 
@@ -18,8 +22,9 @@ import sympy as sp
 
 from ..core import AnchorMissing, Check, Undecided, calls_in, dotted, kwarg, src, own_nodes, slice_src
 from ..flow import CFG
-from ..nf import Ctx, eqx
+from ..nf import Ctx, P as nf_of_pattern, eqx, nf
 from ..terms import Extractor, ITE, is_zero
+from .c01 import normalised
 
 LEVEL = "proof"
 TH = "thermodynamics:Thermodynamics"
@@ -79,9 +84,49 @@ def _positional_free_energy_calls(S, fi):
                     c.keywords.remove(k)
                     c.args.append(k.value)
             return c
-    node = T().visit(copy.deepcopy(fi.node))
+    node = _LowerConditionals().visit(T().visit(copy.deepcopy(fi.node)))
     ast.fix_missing_locations(node)
     return FuncInfo(fi.module, fi.qual, node, fi.cls, fi.parent)
+
+
+class _LowerConditionals(ast.NodeTransformer):
+    """a conditional expression is a two-way branch: `return A if c else B` -> `if c: return A / else: return B`, likewise `x = A if c else B`,
+    also under a one-argument conversion (`float(A if c else B)` -> `float(A) if c else float(B)`) and nested in the arms.  The path extractor then
+    yields one path per arm with the test as its guard, exactly as for the statement form."""
+
+    @staticmethod
+    def _split(v):
+        """(test, value if true, value if false) of a conditional value, else None"""
+        if isinstance(v, ast.IfExp):
+            return v.test, v.body, v.orelse
+        if isinstance(v, ast.Call) and len(v.args) == 1 and not v.keywords and isinstance(v.args[0], ast.IfExp) and isinstance(v.func, (ast.Name, ast.Attribute)):
+            wrap = lambda a: ast.copy_location(ast.Call(func=copy.deepcopy(v.func), args=[a], keywords=[]), v)
+            return v.args[0].test, wrap(v.args[0].body), wrap(v.args[0].orelse)
+        return None
+
+    def _lower(self, st, make):
+        sp_ = self._split(st.value) if getattr(st, "value", None) is not None else None
+        if sp_ is None:
+            return st
+        test, a, b = sp_
+        new = ast.If(test=test, body=[self._lower(make(a), make)], orelse=[self._lower(make(b), make)])
+        return ast.copy_location(new, st)
+
+    def visit_Return(self, st):
+        return self._lower(st, lambda v: ast.copy_location(ast.Return(value=v), st))
+
+    def visit_Assign(self, st):
+        if len(st.targets) != 1 or not isinstance(st.targets[0], ast.Name):
+            return st
+        return self._lower(st, lambda v: ast.copy_location(ast.Assign(targets=[copy.deepcopy(st.targets[0])], value=v), st))
+
+    def visit_AnnAssign(self, st):
+        if not isinstance(st.target, ast.Name) or st.value is None:
+            return st
+        return self._lower(st, lambda v: ast.copy_location(ast.Assign(targets=[ast.Name(id=st.target.id, ctx=ast.Store())], value=v), st))
+
+    def visit_Lambda(self, x):
+        return x
 
 
 def _classify(path, X, T, ex=None):
@@ -201,7 +246,7 @@ def rules(chk: Check) -> None:
         chk.ob("R10.3", S.func(f"{TH}.de{X}").where(), f"de{X} = T ddp is d/dT (T dp - p)", ok, how,
                key=f"de-consistency|{X}", how=how)
         # csq: all three branches
-        fi = S.func(f"{TH}.csq{X}")
+        fi = _positional_free_energy_calls(S, S.func(f"{TH}.csq{X}"))
         for side, arg in (("table", Tt), ("lower", inl.sym(f"self.TMin{X}")), ("upper", inl.sym(f"self.TMax{X}"))):
             paths = inl.returns(fi)
             val = None
@@ -281,16 +326,25 @@ def rules(chk: Check) -> None:
                        ok, how, key=f"cs|{X}|{tag}", how=how)
 
     # ---------------- R10.5 (spline derivatives) -----------------------------
-    f_int = S.func("interpolatableFunction:InterpolatableFunction._interpolate")
+    f_int = normalised(S, S.func("interpolatableFunction:InterpolatableFunction._interpolate"))      # a loop over the literal orders is written out
     chk.touch(f_int.name)
     ci = Ctx(S, f_int)
+    gi = CFG(f_int.node)
     ok_list = False
     spline_same = False
     for n_ in own_nodes(f_int.node):
         if isinstance(n_, ast.Assign) and any(dotted(t) == "self._interpolatedDerivatives" for t in n_.targets):
+            items = list(_elements(ci.resolve(n_.value))) if not (isinstance(n_.value, ast.List) and not n_.value.elts) else []
+            # elements appended to the list afterwards: one unconditional statement each, in program order
+            for q in gi.nodes:
+                if isinstance(q, ast.Expr) and isinstance(q.value, ast.Call) and isinstance(q.value.func, ast.Attribute) and q.value.func.attr in ("append", "extend", "insert") \
+                        and eqx(q.value.func.value, "self._interpolatedDerivatives", ci):
+                    plain = q.value.func.attr == "append" and len(q.value.args) == 1 and not q.value.keywords and gi.must_pass(CFG.ENTRY, CFG.EXIT, lambda z, q=q: z is q) \
+                        and gi.must_pass(CFG.ENTRY, q, lambda z: z is n_)
+                    items.append(q.value.args[0] if plain else None)
             orders = []
-            for e in _elements(ci.resolve(n_.value)):
-                e = ci.resolve(e)
+            for e in items:
+                e = ci.resolve(e) if e is not None else None
                 nu = kwarg(e, "nu", 0) if isinstance(e, ast.Call) else None
                 if isinstance(e, ast.Call) and eqx(e.func, "self._interpolatedFunction.derivative", ci) and isinstance(nu, ast.Constant):
                     orders.append(nu.value)
@@ -379,7 +433,8 @@ def rules(chk: Check) -> None:
            ok_fa and ok_fi, key="row-layout")
 
     # ---------------- R10.6 ordering in the manager --------------------------
-    fm = S.func("manager:WallGoManager.setupThermodynamicsHydrodynamics")
+    # (loops over literal cases are written out and procedures that contain one of the anchored calls are looked into: see c01.normalised)
+    fm = normalised(S, S.func("manager:WallGoManager.setupThermodynamicsHydrodynamics"))
     chk.touch(fm.name)
     g = CFG(fm.node)
     n_ext = g.stmts_calling("setExtrapolate")
@@ -393,11 +448,15 @@ def rules(chk: Check) -> None:
     ok = bool(n_ext) and all(g.must_pass(CFG.ENTRY, e, lambda n: n in n_trc) for e in n_ext)
     chk.ob("R10.6", fm.where(), "every path to setExtrapolate() passes initTemperatureRange() (both phases traced)", ok,
            key="order|trace-before-extrapolate")
-    fr = S.func("manager:WallGoManager.initTemperatureRange")
+    fr = normalised(S, S.func("manager:WallGoManager.initTemperatureRange"))
     chk.touch(fr.name)
+    cr = Ctx(S, fr)
     tr = calls_in(fr.node, "tracePhase")
-    chk.ob("R10.6", fr.where(), "initTemperatureRange traces both free energies", len(tr) >= 2, f"{len(tr)} tracePhase calls",
-           key="order|two-traces")
+    # whose phase is traced: the receiver of each tracePhase call, temporaries looked through
+    traced = {nf(cr.resolve(c.func.value), cr) for c in tr if isinstance(c.func, ast.Attribute)}
+    both = {nf_of_pattern(f"self.thermodynamics.{FE[X]}", cr) for X in PHASES}
+    chk.ob("R10.6", fr.where(), "initTemperatureRange traces both free energies", len(tr) >= 2 and both <= traced,
+           f"{len(tr)} tracePhase calls, on {sorted(traced)}", key="order|two-traces")
     # Hydrodynamics is only constructed in _initHydrodynamics
     ctor = []
     for fi2 in S.modules["manager"].funcs.values():
